@@ -262,6 +262,25 @@ def python_gate(ctx: Ctx, py: PyProgram) -> None:
                 nz = (isinstance(a.ops[0], ast.NotEq) and pol) or (isinstance(a.ops[0], ast.Eq) and not pol)
                 if nz and "IMEMRegisters.IMR" in lv and "IMEMRegisters.ISR" in lv:
                     src_ok = True
+                    # ... and nothing else narrows it: every factor of the conjunction is IMR, ISR or a constant.  A factor taken
+                    # from bookkeeping (the latched source) lets a masked request of one source starve an enabled one of another.
+                    factors: list[ast.expr] = []
+
+                    def flat(e: ast.expr) -> None:
+                        if isinstance(e, ast.BinOp) and isinstance(e.op, ast.BitAnd):
+                            flat(e.left)
+                            flat(e.right)
+                        else:
+                            factors.append(e)
+                    flat(a.left)
+                    for f_ in factors:
+                        fl = py_leaves(f_, defs)
+                        if isinstance(f_, ast.Constant) or "IMEMRegisters.IMR" in fl or "IMEMRegisters.ISR" in fl:
+                            continue
+                        k_ = key_of(EMU, "PCE500Emulator.step", "delivery gate narrowed by a factor that is neither IMR nor ISR")
+                        if k_ not in reported_defs:
+                            reported_defs.add(k_)
+                            ctx.violation("C12.1/gate-source", k_, f"the delivery test `{unparse(a)[:90]}` contains the factor `{unparse(f_)[:40]}` ({sorted(fl)[:3]}), which is not IMR or ISR: an enabled, pending request is held back whenever that bookkeeping value names another source", where, guards=texts)
         if not src_ok:
             ctx.violation("C12.1/gate-source", skey, f"{kind} is not dominated by a mask/status test `(IMR & ISR) != 0`", where, guards=texts)
     ctx.instance("C12.2/python-gate-defs", "definitions of the master-enable gate variable reaching the delivery test", len(reported_defs) + 1, 1)
@@ -566,6 +585,20 @@ def low_power(ctx: Ctx, py: PyProgram, rs: RustProgram) -> None:
     n_sites += 1
     if not cleared:
         ctx.violation("C12.4/off-clears-pending", key_of(rel, "CoreRuntime::step", "is_off: irq_pending=false"), "the OFF branch does not reset the pending flag", rel)
+
+    # OFF stops the clocks: on the powered-off path the cycle counter is not advanced and the timers are not ticked
+    for a in walk(fn.body):
+        is_time = (a.get("k") in ("assign", "opassign") and a["l"].get("k") == "field" and a["l"].get("name") == "cycle_count") or \
+                  (a.get("k") == "mcall" and a["m"] in ("tick_timers", "tick_timers_with_keyboard", "advance_cycles"))
+        if not is_time:
+            continue
+        node = g2.node_of(a)
+        if node is None:
+            continue
+        n_sites += 1
+        if any(isinstance(x, dict) and pol and expr_text(x).replace(" ", "") == "self.state.is_off()" for x, pol, _o in g2.guards_of(node)):
+            ctx.violation("C12.4/off-stops-time", key_of(rel, "CoreRuntime::step", "time advances while the CPU is off"),
+                          f"`{expr_text(a)[:80]}` runs on the powered-off path: timer targets are absolute cycle numbers, so both timers keep running across OFF and expire as soon as the ON key wakes the machine", f"{rel}:{a['ln']}")
 
     # Python: execute_instruction dominated by ... must pass `halted = False` from the halted guard
     st = py.func(EMU, "PCE500Emulator.step")
